@@ -18,6 +18,8 @@ struct scanner {
 	bool sawspace;
 	FILE *file;
 	struct location loc;
+	/* line breaks passed by lookahead that was pushed back */
+	size_t skipped;
 	struct buffer buf;
 	struct scanner *next;
 };
@@ -54,6 +56,11 @@ nextchar(struct scanner *s)
 
 	if (s->usebuf)
 		bufadd(&s->buf, s->chr);
+	if (s->skipped) {
+		s->loc.line += s->skipped;
+		s->loc.col = 0;
+		s->skipped = 0;
+	}
 	for (;;) {
 		s->chr = getc(s->file);
 		if (s->chr == '\n') {
@@ -363,8 +370,9 @@ again:
 		nextchar(s);
 		if (s->chr != '.') {
 			ungetc(s->chr, s->file);
-			/* keep line breaks of splices read in between */
-			s->loc.col = s->loc.line == oldloc.line ? oldloc.col : 0;
+			/* line splices read in between are counted again when the character is re-read */
+			s->skipped = s->loc.line - oldloc.line - (s->chr == '\n');
+			s->loc = oldloc;
 			s->chr = '.';
 			return TPERIOD;
 		}
@@ -427,6 +435,7 @@ scanfrom(const char *name, FILE *file)
 	s->loc.file = name;
 	s->loc.line = 1;
 	s->loc.col = 0;
+	s->skipped = 0;
 	s->next = scanner;
 	if (file)
 		nextchar(s);
